@@ -202,9 +202,24 @@ class TU:
         k = e['kind']
         if k == 'ConstantExpr' and 'value' in e:
             return int(e['value'])
+        if k in ('ImplicitCastExpr', 'CStyleCastExpr') and e.get('castKind') == 'IntegralCast':
+            v = self._const_eval(e['inner'][0])
+            t = self.ctype_of(e)
+            if t.kind == 'int' and t.size:                 # conversion to an integer type wraps to its range
+                bits = 8 * t.size
+                v &= (1 << bits) - 1
+                if t.signed and v >= 1 << (bits - 1):
+                    v -= 1 << bits
+            return v
         if k in ('ConstantExpr', 'ParenExpr', 'ImplicitCastExpr', 'CStyleCastExpr'):
             return self._const_eval(e['inner'][0])
-        if k == 'IntegerLiteral':
+        if k == 'ConditionalOperator':
+            c, a, b = e['inner']
+            return self._const_eval(a) if self._const_eval(c) else self._const_eval(b)
+        if k == 'BinaryOperator' and e['opcode'] in ('>', '<', '>=', '<=', '==', '!='):
+            a, b = [self._const_eval(x) for x in e['inner']]
+            return int({'>': a > b, '<': a < b, '>=': a >= b, '<=': a <= b, '==': a == b, '!=': a != b}[e['opcode']])
+        if k in ('IntegerLiteral', 'CharacterLiteral'):
             return int(e['value'])
         if k == 'UnaryExprOrTypeTraitExpr' and e.get('name') == 'sizeof':
             if 'argType' in e:
